@@ -94,6 +94,12 @@ class Kit:
     def cleanup(self) -> None:
         """ removes scratch data, if the kit made any """
 
+    def same_content(self, original, again):
+        """ optional: None, or a description of how the regenerated object differs from the original by the
+            classes' own __eq__ (for results that leave nothing in the record, where lost fields would
+            otherwise be invisible: both JSON texts lack them) """
+        return None
+
 
 def _regenerate(kit: Kit, level: str, data: dict, record, options) -> tuple:
     base = _b()
@@ -242,6 +248,9 @@ def _drive(spec: dict, kit: Kit) -> dict:
             raise Violation("regenerate_type", dict(where, returned=type(again).__name__))
         pre_text = base._dumps(again.to_json())
         _compare("json", pre_text, texts["pre"], dict(where, stage="pre"), deferred, kit)
+        unequal = kit.same_content(original, again)
+        if unequal:
+            raise Violation("content", dict(where, difference=unequal))
         applied = base._guard(lambda: kit.apply(again, fresh))[:2]
         if applied != applied0:
             raise Violation("apply_outcome", dict(where, original=applied0, regenerated=applied))
@@ -701,6 +710,14 @@ class TerpeneKit(Kit):
 
     def rerun_blocked(self):
         return block((self.module(), "analyse_cluster"))
+
+    def same_content(self, original, again):
+        if list(original.cluster_predictions) != list(again.cluster_predictions):
+            return "protocluster numbers"
+        for number, prediction in original.cluster_predictions.items():
+            if prediction != again.cluster_predictions[number]:      # ProtoclusterPrediction.__eq__
+                return f"prediction of protocluster {number}"
+        return None
 
     def describe(self, spec, original):
         preds = list(original.cluster_predictions.values())
@@ -1424,6 +1441,10 @@ def _sig_t2pks_set_order(sub, spec, clause, detail) -> bool:
 
 def _sig_ripp_set_order(sub, spec, clause, detail) -> bool:
     path = _path_of(detail)
+    if sub in RIPP_SUBS and clause == "effects_precursor_function" and spec.get("order_witness"):
+        # the committed witness only: the order of a set of strings follows the hash seed; under a seed where the
+        # two lists happen to agree the witness still shows the other RiPP finding, which is not a new violation
+        return True
     return (sub in RIPP_SUBS and clause == "json_set_order"
             and any(key in path for key in ("new_cds_features", "/protoclusters", "protoclusters with motifs")))
 
